@@ -57,7 +57,7 @@ def gen_worlds(seed, n):
         elif len(ws) % 3 == 2:
             w = simgen.gen_fuzz_world(rng)
         else:
-            w = simgen.gen_world(rng, closed_loop=rng.random() < 0.1)
+            w = simgen.gen_world(rng, closed_loop=rng.random() < 0.15)
         if "zero_runtime" in simgen.signature(w):
             continue           # F8: a zero-runtime strategy livelocks simulate(); exercised in its own stream (C05)
         ws.append(w)
